@@ -6,7 +6,7 @@ import random
 import unittest
 
 import eliot
-from eliot import Action, MemoryLogger, preserve_context
+from eliot import Action, MemoryLogger, Message, log_message, preserve_context
 from eliot.parse import Parser, WrittenAction
 from eliot.testing import LoggedAction, LoggedMessage, assertHasAction, assertHasMessage, swap_logger
 
@@ -30,7 +30,15 @@ RULE = ("ProgGen programs over a 3-letter type alphabet (so equal types recur as
         "have gaps in their children's indices; all of the above must still hold for them (exactly the logged children, the parser's "
         "tree). For dict-valued (also nested, a fifth of the programs generate values two levels deep) start / end / message fields of "
         "the first entry the assert helpers are given an equal copy (must pass) and a strict sub-dict, {} or a copy with a nested dict "
-        "emptied (must fail: a field is matched by equality of its value)")
+        "emptied (must fail: a field is matched by equality of its value). "
+        "Part 'untyped': two fifths of the programs also write messages without an explicit type (Message.log(**f), Message.new(**f).write(), "
+        "Message(dict).write(), action.log(\"\", **f), log_message(\"\", **f); a captured log shows them with message_type \"\") at top "
+        "level and inside actions, part of their field names and values copied from the start fields of actions of the same program; for "
+        "every program the empty type is queried as well: LoggedMessage.of_type(messages, \"\") == exactly the untyped messages in emission "
+        "order (never the start or end message of an action, whose dicts have no message_type at all) == the parser's message nodes of "
+        "type \"\"; assertHasMessage(test, logger, \"\", fields) succeeds iff the FIRST untyped message has the fields (expectations: its own "
+        "fields although an action was started before it, the start fields of an action, plus the variants used for the other types) "
+        "and fails when the program wrote no untyped message")
 ASSUMPTIONS = ["all actions are finished before the helpers are used (of_type documents ValueError otherwise)"]
 BATCH = 30
 TYPES = ["t:a", "t:b", "t:c"]
@@ -156,13 +164,85 @@ def add_reservations(prog, rng, next_nid, p):
     return count[0]
 
 
+ENABLE_UNTYPED = True
+# ways of writing a message without naming a type; each leaves message_type == "" in a captured MemoryLogger
+UNTYPED_STYLES = ["untyped:Message.log", "untyped:Message.new.write", "untyped:Message(dict).write", "untyped:action.log('')", "untyped:log_message('')"]
+
+
+def add_untyped(prog, rng, next_nid, value_depth):
+    """Insert messages written without an explicit type at random positions (top level: a task of its own; inside action and
+    remote bodies). Part of their fields reuse names - and sometimes values - of start fields of the program's actions, so that an
+    expectation about such a field can tell the message from an action's start message."""
+    acts = []
+
+    def collect(nodes):
+        for n in nodes:
+            if n["k"] in ("act", "remote"):
+                if n["k"] == "act" and n.get("start"):
+                    acts.append(n)
+                collect(n["children"])
+    collect(prog)
+    fg = gen.ProgGen(rng, value_depth=value_depth)
+    count = [0]
+
+    def make():
+        count[0] += 1
+        f = fg.fields()
+        if acts and rng.random() < 0.6:
+            for k, v in rng.choice(acts)["start"].items():
+                if k in gen.RESERVED or k.startswith("_"):
+                    continue
+                f[k] = copy.deepcopy(v) if rng.random() < 0.3 else gen.gen_value(rng, value_depth)
+        return {"k": "msg", "nid": next_nid + count[0], "style": rng.choice(UNTYPED_STYLES), "type": "", "fields": f, "untyped": True}
+
+    def walk(nodes, p):
+        for n in list(nodes):
+            if n["k"] in ("act", "remote") and n.get("api") != "reserve-only":
+                walk(n["children"], 0.35)
+        k = 0
+        while k < 3 and rng.random() < p:
+            k += 1
+            nodes.insert(rng.randint(0, len(nodes)), make())
+    walk(prog, 0.5)
+    if count[0] == 0:
+        prog.insert(rng.randint(0, len(prog)), make())
+    return count[0]
+
+
 class _Interp(Interp):
-    """Interp that also executes the reserve-only hand-offs (no ground-truth node: nothing is logged for them here)."""
+    """Interp that also executes the reserve-only hand-offs (no ground-truth node: nothing is logged for them here) and the
+    messages written without an explicit type."""
 
     def __init__(self):
         Interp.__init__(self)
         self.elsewhere = MemoryLogger()  # stands for the other process / the production logger the id travelled to
         self.gap_lists = {}  # id(ground-truth children list of the reserving action) -> number of positions left empty
+        self.untyped_calls = {}
+
+    def _exec_msg(self, node, gt_children, cur, style, t, fields, decl):
+        if not node.get("untyped"):
+            return Interp._exec_msg(self, node, gt_children, cur, style, t, fields, decl)
+        if style == "untyped:action.log('')" and cur is None:
+            style = "untyped:log_message('')"
+        self.untyped_calls[style] = self.untyped_calls.get(style, 0) + 1
+        if style == "untyped:Message.log":
+            self.api("Message.log", Message.log, **fields)
+        elif style == "untyped:Message.new.write":
+            ok, m = self.api("Message.new", Message.new, **fields)
+            if ok:
+                self.api("Message.write", m.write)
+        elif style == "untyped:Message(dict).write":
+            ok, m = self.api("Message", Message, dict(fields))
+            if ok:
+                self.api("Message.write", m.write)
+        elif style == "untyped:action.log('')":
+            self.api("Action.log", cur.log, "", **fields)
+        elif style == "untyped:log_message('')":
+            self.api("log_message", log_message, "", **fields)
+        else:
+            raise AssertionError(style)
+        gt = {"kind": "message", "type": "", "fields": self._expect(fields, None), "nid": node["nid"]}
+        self._attach(None if cur is None else gt_children, gt)
 
     def exec_remote(self, node, gt_children, cur):
         how = node.get("drop")
@@ -246,6 +326,132 @@ class _TC(unittest.TestCase):
         pass
 
 
+def clearly_lacks(fields, k, v):
+    """The logged fields do not contain the pair (k, v), under the strict and under Python's notion of equality alike."""
+    return k not in fields or not (json_equal(fields[k], v) or fields[k] == v)
+
+
+def check_untyped(logger, nodes, tasks, tc, rng, res, problems):
+    """The empty message type: what a captured log shows for every message written without an explicit type. The start and end
+    messages of actions have no message_type at all; they are not messages of type ""."""
+    messages = logger.messages
+    c = res["counters"]
+    want = [n for n, _, _ in nodes if n["kind"] == "message" and n["type"] == ""]
+    actions = [n for n, _, _ in nodes if n["kind"] == "action"]
+    typed = [n for n, _, _ in nodes if n["kind"] == "message" and n["type"] != ""]
+    c["empty_type_queries"] = c.get("empty_type_queries", 0) + 1
+    mixed = bool(want and actions)
+    if mixed:
+        c["empty_type_queries_on_logs_mixing_untyped_messages_and_actions"] = c.get("empty_type_queries_on_logs_mixing_untyped_messages_and_actions", 0) + 1
+        if typed:
+            c["empty_type_queries_on_logs_with_typed_messages_too"] = c.get("empty_type_queries_on_logs_with_typed_messages_too", 0) + 1
+
+    def describe(m):
+        if "action_type" in m:
+            return "the %s message of action %r (nid %r), which has no message_type" % (m.get("action_status"), m.get("action_type"), m.get("nid"))
+        return "message nid %r of type %r" % (m.get("nid"), m.get("message_type"))
+    try:
+        got = LoggedMessage.of_type(messages, "")
+    except BaseException as e:
+        problems.append('LoggedMessage.of_type(messages, "") raised %r' % (e,))
+        return
+    got_dicts = [lm.message for lm in got]
+    if [(m.get("nid"), m.get("message_type")) for m in got_dicts] != [(n["nid"], "") for n in want]:
+        intruders = [m for m in got_dicts if "action_type" in m]
+        problems.append('LoggedMessage.of_type(messages, "") returned %d entries, the program wrote %d messages without a type (nids %s)%s' % (
+            len(got), len(want), [n["nid"] for n in want][:8],
+            "; %d of the entries are start/end messages of actions, the first: %s" % (len(intruders), describe(intruders[0])) if intruders else
+            "; returned nids %s" % ([m.get("nid") for m in got_dicts][:8],)))
+    # the parser's message nodes (never an action's start / end message) of type "", in emission order
+    if tasks:
+        where = {}
+        for idx, m in enumerate(messages):
+            where.setdefault((m["task_uuid"], tuple(m["task_level"])), idx)
+        pm = []
+
+        def walk(x):
+            if isinstance(x, WrittenAction):
+                for ch in x.children:
+                    walk(ch)
+            elif x.contents.get("message_type") == "":
+                pm.append((where.get((x.task_uuid, tuple(x.task_level.as_list())), -1), x.task_uuid, tuple(x.task_level.as_list()), x.contents.get("nid")))
+        for t in tasks.values():
+            walk(t.root())
+        pm.sort()
+        if [(m["task_uuid"], tuple(m["task_level"]), m.get("nid")) for m in got_dicts] != [x[1:] for x in pm]:
+            problems.append('LoggedMessage.of_type(messages, "") has %d entries, the parser built %d message nodes of type "" from the same log '
+                            '(helper levels %s, parser levels %s)' % (len(got), len(pm), [m["task_level"] for m in got_dicts][:6], [list(x[2]) for x in pm][:6]))
+    if not want:
+        # no message without a type was written: nothing is "the first message of type ''", whatever actions the log holds
+        for label, f_ in (("no fields", None), ("start fields of the first action", dict(actions[0]["start"]) if actions else {})):
+            try:
+                r = assertHasMessage(tc, logger, "", f_)
+            except AssertionError:
+                continue
+            except BaseException as e:
+                problems.append('assertHasMessage(test, logger, "", %s) raised %r' % (label, e))
+                continue
+            finally:
+                c["assert_helper_calls"] = c.get("assert_helper_calls", 0) + 1
+            problems.append('assertHasMessage(test, logger, "", %s) passed although the program wrote no message without a type; it returned %s' % (
+                label, describe(r.message) if isinstance(r, LoggedMessage) else repr(r)))
+        return
+    first = want[0]
+    ff = first["fields"]
+    idx_first = next((j for j, m in enumerate(messages) if m.get("message_type") == "" and m.get("nid") == first["nid"]), None)
+    starts_before = [m for m in messages[:idx_first or 0] if m.get("action_status") == "started" and "action_type" in m]
+    sub = {k: v for k, v in ff.items() if rng.random() < 0.6}
+    variants = [("a true subset of its fields", sub, True), ("no fields", None, True), ("its own fields and nid", dict(sub, nid=first["nid"]), True),
+                ("all of its fields", dict(ff), True), ("a wrong nid", dict(sub, nid=-1), False),
+                ("a key it lacks", dict(sub, no_such_key=0), False), ("a key it lacks, value None", dict(sub, no_such_key=None), False)]
+    if starts_before:
+        # an action was started (its start message is in the log) before the first untyped message: that start message is not a
+        # message of type "", so it neither rescues nor spoils the assertion
+        c["untyped_expectations_with_an_action_started_before_the_first_untyped_message"] = c.get("untyped_expectations_with_an_action_started_before_the_first_untyped_message", 0) + 1
+        for k in sorted(ff, key=repr):
+            if all(clearly_lacks(m, k, ff[k]) for m in starts_before):
+                variants.append(("field %r, which no earlier start message of an action has with that value" % (k,), {k: ff[k]}, True))
+                break
+    # expectations that only the start message of an action satisfies
+    cands = [a for a in actions if a["start"] and any(clearly_lacks(ff, k, v) for k, v in a["start"].items())]
+    picks = []
+    if cands:
+        picks.append(("the first such action", cands[0]))
+        if len(cands) > 1:
+            picks.append(("another action", rng.choice(cands[1:])))
+    for which, a in picks:
+        bad = [k for k, v in sorted(a["start"].items(), key=repr) if clearly_lacks(ff, k, v)]
+        e1 = {k: v for k, v in a["start"].items() if rng.random() < 0.5}
+        kk = rng.choice(bad)
+        e1[kk] = a["start"][kk]
+        variants.append(("start fields %s of %s (type %r, nid %r), which the first untyped message lacks" % (sorted(e1, key=repr), which, a["type"], a["nid"]), e1, False))
+        variants.append(("all start fields of %s (type %r, nid %r), which the first untyped message lacks" % (which, a["type"], a["nid"]), dict(a["start"]), False))
+        c["untyped_expectations_only_an_action_start_message_satisfies"] = c.get("untyped_expectations_only_an_action_start_message_satisfies", 0) + 2
+    if len(want) >= 2:
+        variants.append(("the nid of a later untyped message", {"nid": want[-1]["nid"]}, False))
+        variants.append(("all fields of the second untyped message", dict(want[1]["fields"]), json_equal(want[1]["fields"], ff)))
+    dk, dvs = dict_variants(ff, rng)
+    for dlabel, dv, dok in dvs:
+        variants.append(("field %r as %s" % (dk, dlabel), {**sub, dk: dv}, dok))
+    for label, f_, expect_ok in variants:
+        try:
+            r = assertHasMessage(tc, logger, "", f_)
+            passed = True
+        except AssertionError:
+            passed = False
+        except BaseException as e:
+            problems.append('assertHasMessage(test, logger, "", %s) raised %r' % (label, e))
+            continue
+        c["assert_helper_calls"] = c.get("assert_helper_calls", 0) + 1
+        if passed != expect_ok:
+            problems.append('assertHasMessage(test, logger, "", expecting %s) %s, but the first message written without a type (nid %r, fields %s) %s that expectation%s' % (
+                label, "passed" if passed else "failed", first["nid"], sorted(ff, key=repr), "meets" if expect_ok else "does not meet",
+                "; it returned %s" % describe(r.message) if passed and isinstance(r, LoggedMessage) else ""))
+        elif passed and not (isinstance(r, LoggedMessage) and r.message.get("nid") == first["nid"] and r.message.get("message_type") == ""):
+            problems.append('assertHasMessage(test, logger, "", expecting %s) returned %s instead of the first message written without a type (nid %r)' % (
+                label, describe(r.message) if isinstance(r, LoggedMessage) else repr(r), first["nid"]))
+
+
 def one(seed, i, res):
     rng = random.Random("%s:C17:%d" % (seed, i))
     rng2 = random.Random("%s:C17:widen:%d" % (seed, i))  # choices added later draw from a stream of their own
@@ -256,6 +462,9 @@ def one(seed, i, res):
     if rng2.random() < 0.5:
         # hand-offs whose reserved child position is never filled in this logger (sibling indices with gaps)
         add_reservations(prog, rng2, g.nid + 1000, rng2.choice([0.15, 0.4]))
+    rng3 = random.Random("%s:C17:untyped:%d" % (seed, i))  # part 'untyped' draws from a stream of its own as well
+    if ENABLE_UNTYPED and rng3.random() < 0.4:
+        add_untyped(prog, rng3, g.nid + 5000, g.value_depth)
     logger = MemoryLogger()
     prev = swap_logger(logger)
     it = _Interp()
@@ -370,7 +579,7 @@ def one(seed, i, res):
             except AssertionError:
                 pass
     # messages
-    mtypes = sorted(set(n["type"] for n, _, _ in nodes if n["kind"] == "message")) + ["nope:m"]
+    mtypes = sorted(set(n["type"] for n, _, _ in nodes if n["kind"] == "message" and n["type"] != "")) + ["nope:m"]  # "": check_untyped
     for T in mtypes:
         want = [n for n, _, _ in nodes if n["kind"] == "message" and n["type"] == T]
         got = LoggedMessage.of_type(messages, T if rng.random() < 0.5 else eliot.MessageType(T, [], ""))
@@ -406,6 +615,11 @@ def one(seed, i, res):
                 problems.append("assertHasMessage passed for a type that never occurred")
             except AssertionError:
                 pass
+    if ENABLE_UNTYPED:
+        check_untyped(logger, nodes, tasks, tc, rng3, res, problems)
+        for k, v in it.untyped_calls.items():
+            d = res["counters"].setdefault("untyped_message_calls", {})
+            d[k] = d.get(k, 0) + v
     # values that are not equal to themselves (NaN): the logger holds the very object that was logged, so the first entry does
     # contain the expected field; a different number does not match
     nan_logger = MemoryLogger()
@@ -460,4 +674,15 @@ def finalize(agg, tier):
         return "no compared action had a reserved child position that was never continued in the captured logger"
     if agg["counters"].get("dict_valued_field_expectations", 0) == 0:
         return "no assert-helper expectation about a dict-valued field was generated"
+    if ENABLE_UNTYPED:
+        for k, why in (("empty_type_queries_on_logs_mixing_untyped_messages_and_actions", "no log mixing messages written without a type and actions was queried for the empty message type"),
+                       ("empty_type_queries_on_logs_with_typed_messages_too", "no log with untyped messages, actions and typed messages was queried for the empty message type"),
+                       ("untyped_expectations_with_an_action_started_before_the_first_untyped_message", "no assertHasMessage expectation about an untyped message that follows an action's start message was generated"),
+                       ("untyped_expectations_only_an_action_start_message_satisfies", "no assertHasMessage expectation for the empty type that only an action's start message satisfies was generated")):
+            if agg["counters"].get(k, 0) == 0:
+                return why
+        calls = agg["counters"].get("untyped_message_calls", {})
+        for st in UNTYPED_STYLES:
+            if calls.get(st, 0) == 0:
+                return "no message was written with %s" % st
     return None
